@@ -1,5 +1,6 @@
 // C18 round-trip cases: LinearModel, Normalizer, ConcatenatedModel, NeuronLayer, Classifier<LinearModel>.
 #include "c18_rt.h"
+#include "c18_behave.h"
 
 #include <shark/Models/LinearModel.h>
 #include <shark/Models/Normalizer.h>
@@ -53,12 +54,14 @@ template<class M> void obsModel(Obs& o, M const& m, RealMatrix const& probes, bo
 }
 
 // ---------------- LinearModel ----------------
+template<class LM> bool linearOk(LM const& m, RealMatrix const& probes) {
+	return m.matrix().size2() == probes.size2() && (!m.hasOffset() || m.offset().size() == m.matrix().size1());
+}
 template<class LM> void obsLinear(Obs& o, LM const& m, RealMatrix const& probes) {
 	o.b("hasOffset", m.hasOffset());
 	o.mat("matrix", m.matrix());
 	o.vec("offset", m.offset());
-	bool ok = m.matrix().size2() == probes.size2() && (!m.hasOffset() || m.offset().size() == m.matrix().size1());
-	obsModel(o, m, probes, ok, m.matrix().size1() != 0 && m.matrix().size2() != 0);
+	obsModel(o, m, probes, linearOk(m, probes), m.matrix().size1() != 0 && m.matrix().size2() != 0);
 }
 
 template<class LM> void linearCase(Ctx& c, std::string const& variant) {
@@ -89,15 +92,28 @@ template<class LM> void linearCase(Ctx& c, std::string const& variant) {
 	obsLinear(c.A, a, probes);
 	c.transfer(a, b);
 	obsLinear(c.B, b, probes);
+	// all advertised behaviours (c18_behave.h): restored into a default-constructed object, into the same structure
+	// with other parameters, and into the differently structured b
+	LM d, e(a);
+	fillParams(r, e);
+	c.transfer(a, d); c.transfer(a, e);
+	std::vector<Target<LM> > ts;
+	ts.push_back(Target<LM>("reparam", e, linearOk(e, probes)));
+	ts.push_back(Target<LM>("default", d, linearOk(d, probes)));
+	ts.push_back(Target<LM>("other", b, linearOk(b, probes)));
+	bool nonDegenerate = a.matrix().size1() != 0 && a.matrix().size2() != 0;      // see obsModel: dgemv diagnostic on 0-sized matrices
+	compareModelBehaviour(c, a, linearOk(a, probes), ts, probes, nonDegenerate);
 }
 
 // ---------------- Normalizer ----------------
+bool normalizerOk(Normalizer<RealVector> const& m, RealMatrix const& probes) {
+	return m.diagonal().size() == probes.size2() && (!m.hasOffset() || m.offset().size() == probes.size2());
+}
 void obsNormalizer(Obs& o, Normalizer<RealVector> const& m, RealMatrix const& probes) {
 	o.b("hasOffset", m.hasOffset());
 	o.vec("diagonal", m.diagonal());
 	o.vec("offset", m.offset());
-	bool ok = m.diagonal().size() == probes.size2() && (!m.hasOffset() || m.offset().size() == probes.size2());
-	obsModel(o, m, probes, ok);
+	obsModel(o, m, probes, normalizerOk(m, probes));
 }
 void normalizerCase(Ctx& c, std::string const& variant) {
 	Prng r(c.seed);
@@ -110,6 +126,12 @@ void normalizerCase(Ctx& c, std::string const& variant) {
 	obsNormalizer(c.A, a, probes);
 	c.transfer(a, b);
 	obsNormalizer(c.B, b, probes);
+	Normalizer<RealVector> dflt;
+	c.transfer(a, dflt);
+	std::vector<Target<Normalizer<RealVector> > > ts;
+	ts.push_back(Target<Normalizer<RealVector> >("default", dflt, normalizerOk(dflt, probes)));
+	ts.push_back(Target<Normalizer<RealVector> >("other", b, normalizerOk(b, probes)));
+	compareModelBehaviour(c, a, normalizerOk(a, probes), ts, probes);
 }
 
 // ---------------- NeuronLayer (only carries its shape) ----------------
@@ -123,6 +145,12 @@ void neuronLayerCase(Ctx& c, std::string const& variant) {
 	obsModel(c.A, a, probes, true);
 	c.transfer(a, b);
 	obsModel(c.B, b, probes, true); // element-wise model: evaluation does not depend on the stored shape
+	NeuronLayer<TanhNeuron> dflt;
+	c.transfer(a, dflt);
+	std::vector<Target<NeuronLayer<TanhNeuron> > > ts;
+	ts.push_back(Target<NeuronLayer<TanhNeuron> >("default", dflt, true));
+	ts.push_back(Target<NeuronLayer<TanhNeuron> >("other", b, true));
+	compareModelBehaviour(c, a, true, ts, probes);
 }
 
 // ---------------- ConcatenatedModel ----------------
@@ -163,6 +191,28 @@ void buildNet(Net& N, Prng& r, std::string const& kind, std::size_t in, std::siz
 	}
 }
 
+bool netOk(Net const& N, RealMatrix const& probes) {
+	bool ok = N.layers[0]->inputShape().numElements() == probes.size2();
+	for (std::size_t k = 0; k + 1 < N.layers.size(); ++k)
+		ok = ok && N.layers[k]->outputShape().numElements() == N.layers[k + 1]->inputShape().numElements();
+	return ok;
+}
+
+// the same kind of network around DEFAULT-CONSTRUCTED layer objects (the layer objects are user-supplied structure)
+void buildDefaultNet(Net& N, std::string const& kind) {
+	N.inDim = 0;
+	if (kind == "lin2") {
+		N.net = N.l1 >> N.l2;
+		N.layers.push_back(&N.l1); N.layers.push_back(&N.l2);
+	} else if (kind == "lin3") {
+		N.net = N.l1 >> N.n >> N.l2;
+		N.layers.push_back(&N.l1); N.layers.push_back(&N.n); N.layers.push_back(&N.l2);
+	} else {
+		N.net = N.l1 >> N.la >> N.l3;
+		N.layers.push_back(&N.l1); N.layers.push_back(&N.la); N.layers.push_back(&N.l3);
+	}
+}
+
 void obsNet(Obs& o, Net const& N, RealMatrix const& probes) {
 	// the layer objects are part of the behaviour of the concatenation
 	for (std::size_t k = 0; k != N.layers.size(); ++k) {
@@ -171,9 +221,7 @@ void obsNet(Obs& o, Net const& N, RealMatrix const& probes) {
 		o.shape(p + ".inputShape", N.layers[k]->inputShape());
 		o.shape(p + ".outputShape", N.layers[k]->outputShape());
 	}
-	bool ok = N.layers[0]->inputShape().numElements() == probes.size2();
-	for (std::size_t k = 0; k + 1 < N.layers.size(); ++k)
-		ok = ok && N.layers[k]->outputShape().numElements() == N.layers[k + 1]->inputShape().numElements();
+	bool ok = netOk(N, probes);
 	o.b("evalPossible", ok);
 	if (ok) {
 		RealMatrix out;
@@ -208,9 +256,21 @@ void concatCase(Ctx& c, std::string const& variant) {
 	obsNet(c.A, A, probes);
 	c.transfer(A.net, B.net);
 	obsNet(c.B, B, probes);
+	Net D;
+	buildDefaultNet(D, kind);
+	c.transfer(A.net, D.net);
+	std::vector<Target<ConcatenatedModel<RealVector> > > ts;
+	ts.push_back(Target<ConcatenatedModel<RealVector> >("default", D.net, netOk(D, probes)));
+	ts.push_back(Target<ConcatenatedModel<RealVector> >("other", B.net, netOk(B, probes)));
+	compareModelBehaviour(c, A.net, netOk(A, probes), ts, probes);
 }
 
 // ---------------- Classifier<LinearModel<>> ----------------
+bool classifierOk(Classifier<LinearModel<RealVector> > const& m, RealMatrix const& probes) {
+	LinearModel<RealVector> const& f = m.decisionFunction();
+	return f.matrix().size2() == probes.size2() && (!f.hasOffset() || f.offset().size() == f.matrix().size1())
+		&& (m.bias().empty() || m.bias().size() == f.matrix().size1());
+}
 void obsClassifier(Obs& o, Classifier<LinearModel<RealVector> > const& m, RealMatrix const& probes) {
 	o.vec("param", m.parameterVector());
 	o.u("numberOfParameters", m.numberOfParameters());
@@ -218,8 +278,7 @@ void obsClassifier(Obs& o, Classifier<LinearModel<RealVector> > const& m, RealMa
 	o.shape("inputShape", m.inputShape());
 	o.shape("outputShape", m.outputShape());
 	LinearModel<RealVector> const& f = m.decisionFunction();
-	bool ok = f.matrix().size2() == probes.size2() && (!f.hasOffset() || f.offset().size() == f.matrix().size1())
-		&& (m.bias().empty() || m.bias().size() == f.matrix().size1());
+	bool ok = classifierOk(m, probes);
 	o.b("evalPossible", ok);
 	if (ok) {
 		UIntVector out;
@@ -247,6 +306,13 @@ void classifierCase(Ctx& c, std::string const& variant) {
 	obsClassifier(c.A, a, probes);
 	c.transfer(a, b);
 	obsClassifier(c.B, b, probes);
+	typedef Classifier<LinearModel<RealVector> > CL;
+	CL dflt;
+	c.transfer(a, dflt);
+	std::vector<Target<CL> > ts;
+	ts.push_back(Target<CL>("default", dflt, classifierOk(dflt, probes)));
+	ts.push_back(Target<CL>("other", b, classifierOk(b, probes)));
+	compareModelBehaviour(c, a, classifierOk(a, probes), ts, probes);
 }
 
 } // namespace
